@@ -12,10 +12,10 @@
 # packet must be answered; NAK is only admitted when less than max_packet_size was free at some point of the
 # transaction (class documentation: "if there isn't max_packet_size space in the endpoint buffer, this endpoint
 # will NAK"); PING must be answered ACK when mps bytes are free throughout and NAK when they are not at any point.
-from rtlmc.model import Violation
+from rtlmc.model import Violation, MachineryError
 from rtlmc.explore import Spec
 from rtlmc import usbref as U
-from rtlmc.env.usb2_host import PruneCollision
+from rtlmc.env.usb2_host import PruneCollision, J, K, SE0
 from harness._usb2dev import build_device
 from harness._outstream import StreamHost, payload_bytes, diff_kind
 
@@ -33,16 +33,18 @@ EP = 1
 def configs(tier):
     # mps / buf: max_packet_size and buffer_size of the endpoint (2*mps-1 is the class default); gap, pace: host timing;
     # win: which consumer windows are placed inside transactions; clk60: the 60 MHz (ULPI PHY) flavour of USBDevice;
-    # ctrl: device with a standard control endpoint next to the OUT endpoint
+    # ctrl: device with a standard control endpoint next to the OUT endpoint; hs: the 60 MHz flavour after a high-speed
+    # chirp handshake (run once in the prologue), i.e. with the 1-cycle inter-packet delay of a high-speed device
     def c(mps, buf, depth, win, gap=1, pace=1, **kw): return dict(mps=mps, buf=buf, gap=gap, pace=pace, depth=depth, win=win, **kw)
     if tier == "quick":
         return [c(2, 3, 4, "few"), c(2, 3, 4, "min", gap=12, clk60=1), c(2, 2, 4, "few"), c(2, 4, 4, "min", gap=2), c(2, 6, 4, "min"),
                 c(3, 5, 4, "min"), c(3, 3, 3, "few", pace=2), c(3, 5, 3, "few", gap=12, clk60=1), c(4, 7, 3, "min"), c(2, 3, 3, "sweep"),
-                c(2, 3, 4, "min", ctrl=1)]
+                c(2, 3, 4, "min", ctrl=1), c(2, 3, 4, "min", hs=1), c(3, 5, 3, "min", hs=1)]
     return [c(2, 3, 6, "min"), c(2, 3, 5, "few"), c(2, 3, 5, "few", gap=12, clk60=1), c(2, 2, 6, "min"), c(2, 2, 5, "few"), c(2, 4, 5, "few", gap=2),
             c(2, 6, 5, "few"), c(3, 5, 5, "min"), c(3, 3, 5, "min", pace=2), c(3, 6, 5, "min", gap=3), c(3, 9, 5, "min"),
             c(3, 5, 4, "few", gap=12, clk60=1), c(4, 7, 4, "few"), c(4, 4, 4, "few", pace=8), c(2, 3, 4, "sweep"), c(3, 5, 3, "sweep", gap=12, clk60=1),
-            c(2, 3, 5, "few", ctrl=1), c(3, 5, 4, "few", ctrl=1)]
+            c(2, 3, 5, "few", ctrl=1), c(3, 5, 4, "few", ctrl=1),
+            c(2, 3, 5, "few", hs=1), c(3, 5, 4, "few", hs=1), c(4, 7, 4, "min", hs=1), c(2, 2, 4, "few", hs=1), c(2, 3, 3, "sweep", hs=1)]
 
 
 class BulkOutSpec(Spec):
@@ -53,6 +55,9 @@ class BulkOutSpec(Spec):
         super().__init__(cfg, tier)
         self.mps, self.cap = cfg["mps"], cfg["buf"]
         self.max_depth = cfg["depth"]
+        if cfg.get("hs"):
+            self.n_validate = 1                 # each replay in amaranth.sim has to run the 121k-cycle chirp handshake first
+            self.validate_max_cycles = 130000
         self.time_budget = 600 if tier == "quick" else 1800
         self.host = StreamHost(self._decode, gap=cfg["gap"], pace=cfg["pace"], extra=dict(connect=1))
         h = self.host
@@ -91,6 +96,9 @@ class BulkOutSpec(Spec):
         # decoder shares the inter-packet timer with the data receiver); it is never addressed by this host.
         design, h = build_device(control="standard" if self.cfg.get("ctrl") else None, endpoints=[mk], probe=False)
         ep = h["endpoints"][0]
+        if self.cfg.get("hs"):
+            dev = h["dev"]
+            dev.data_clock, dev.always_fs = 60e6, False
         if self.cfg.get("clk60"):
             # the configuration USBDevice gives itself behind a ULPI PHY (60 MHz usb domain, inter-packet delays counted
             # in 60 MHz cycles), kept at full speed through its full_speed_only input; the UTMI wire is driven directly.
@@ -109,11 +117,31 @@ class BulkOutSpec(Spec):
     def assumptions(self):
         return self.host.assumptions() + [
             "clk60 configurations: USBDevice as it configures itself behind a ULPI PHY (data_clock 60 MHz, not always_fs) held at full speed by full_speed_only=1, UTMI wire driven directly; the host then leaves 12 cycles between packets (the 2 bit times = 10 cycles inter-packet delay)",
-            "device at address 0, full speed (no high-speed negotiation); PING tokens are sent although a full-speed host would not use them",
+            "hs configurations: the same 60 MHz device after a bus reset and a complete high-speed chirp handshake (run once before the exploration); the line state is then kept non-SE0 between packets so that the high-speed suspend/reset timer never runs",
+            "device at address 0, full speed (no high-speed negotiation) except in the hs configurations; PING tokens are sent although a full-speed host would not use them",
             "the host sends DATA0/DATA1 with the toggle it expects; a repeated toggle is only sent after at least one packet was ACKed (lost-ACK retransmission)",
             "payloads never exceed max_packet_size; every DATA packet is preceded by its OUT token",
             "a handshake the host cannot decode counts as no handshake",
             "consumer: `ready` is high in one contiguous window per action (or never / always); it takes a beat whenever valid & ready"]
+
+    def prologue(self, cur):
+        """hs flavour: bus reset + high-speed chirp handshake, so that the device answers with high-speed timing"""
+        if not self.cfg.get("hs"): return None
+        def hold(n, line):
+            while n > 0:
+                k, _, last = cur.hold(n, line_state=line, connect=1)
+                n -= k
+            return last
+        hold(310, SE0)                          # > 5 us of SE0: bus reset, the device starts its chirp
+        hold(120010, K)                         # the device chirps K for 2 ms
+        hold(10, SE0)
+        for _ in range(3):                      # host chirp K-J-K-J-K-J, each > 2.5 us
+            hold(160, K); last = hold(160, J)
+        if last.speed != 0:
+            raise MachineryError("high-speed handshake did not leave the device at high speed")
+        self.host.begin(None)
+        self.host.idle(cur, 4); self.host.settle(cur)
+        return None
 
     # ---- environment / reference
     # env = (queue, toggle, active, acked_any, disturb)
@@ -131,7 +159,8 @@ class BulkOutSpec(Spec):
 
     def goals(self):
         return ["acked-full", "acked-short", "acked-zlp", "naked-no-room", "repeat-acked", "corrupt-ignored", "ping-ack", "ping-nak",
-                "taken-during-transaction", "transfer-of-several-packets", "drained"]
+                "taken-during-transaction", "transfer-of-several-packets", "drained",
+                "stalled:free=len-1", "stalled:free=len", "stalled:free=len+1"]
 
     def _entries(self, L, active):
         p = payload_bytes(L)
@@ -190,6 +219,8 @@ class BulkOutSpec(Spec):
             hs = self._handshake(resp)
             free_min = cap - len(queue)
             if host.consumed and n < 100000: self.cover["taken-during-transaction"] += 1
+            if n == 0 and L and var == "ok" and tgl == "exp" and abs(free_min - L) <= 1:
+                self.cover["stalled:free=len%+d" % (free_min - L) if free_min != L else "stalled:free=len"] += 1
             if var == "bad":
                 if hs == U.ACK: raise Violation("out:ack-on-corrupt-packet", dict(action=a))
                 context = "stream:corrupt-packet-contributed"
